@@ -193,6 +193,9 @@ def run_case(case, ctx):
         cx, cy = np.array([vx() for _ in range(n)]), np.array([vy() for _ in range(n)])
     x = Fxp(cx, sx, wx, fx, raw=True, op_method=method, rounding=r)
     y = Fxp(cy, sy, wy, fy, raw=True, op_method=method)
+    if case['i'] % 4 == 1:
+        x = G.historied(Fxp, x, rng)[0]
+        y = G.historied(Fxp, y, rng)[0]
     q = _try(lambda: x / y)
     fl = _try(lambda: x // y)
     md = _try(lambda: x % y)
